@@ -277,7 +277,12 @@ void VariableManager::process_variable_declaration(const ASTNode *node) {
                           "[ENUM_VAR_DECL_MANAGER] Evaluating init ");
 
                 // AST_FUNC_CALLの場合、ReturnExceptionをキャッチ
-                if (init_node->node_type == ASTNodeType::AST_FUNC_CALL) {
+                // try / checked 式も結果のResultをReturnExceptionで渡す
+                // (caught here it is the initialiser's value; uncaught it
+                // would end the enclosing function as if by `return`)
+                if (init_node->node_type == ASTNodeType::AST_FUNC_CALL ||
+                    init_node->node_type == ASTNodeType::AST_TRY_EXPR ||
+                    init_node->node_type == ASTNodeType::AST_CHECKED_EXPR) {
                     debug_msg(
                         DebugMsgId::GENERIC_DEBUG,
                         "[ENUM_VAR_DECL_MANAGER] Function call detected, ");
